@@ -36,14 +36,17 @@ func (pkg *OrderByPackage) ReadFrom(ch BytesChannel) error {
 		return ErrNotEnoughBytes
 	}
 
-	pkg.ColumnOrder = make([]int, int(columnCount))
+	// The column count is sent by the server - let the slice grow with
+	// the columns that are actually read instead of allocating it up
+	// front.
+	pkg.ColumnOrder = []int{}
 
-	for i := range pkg.ColumnOrder {
+	for i := 0; i < int(columnCount); i++ {
 		colNum, err := ch.Uint8()
 		if err != nil {
 			return ErrNotEnoughBytes
 		}
-		pkg.ColumnOrder[i] = int(colNum)
+		pkg.ColumnOrder = append(pkg.ColumnOrder, int(colNum))
 	}
 
 	return nil
@@ -79,15 +82,16 @@ func (pkg *OrderBy2Package) ReadFrom(ch BytesChannel) error {
 	}
 	n := 2
 
-	pkg.ColumnOrder = make([]int, int(columnCount))
+	// See OrderByPackage.ReadFrom.
+	pkg.ColumnOrder = []int{}
 
-	for i := range pkg.ColumnOrder {
+	for i := 0; i < int(columnCount); i++ {
 		colNum, err := ch.Uint16()
 		if err != nil {
 			return fmt.Errorf("error reading column order for %d: %w", i, err)
 		}
 		n += 2
-		pkg.ColumnOrder[i] = int(colNum)
+		pkg.ColumnOrder = append(pkg.ColumnOrder, int(colNum))
 	}
 
 	if n != int(totalBytes) {
